@@ -50,3 +50,10 @@ Print Assumptions C01_norm_ok.
 Theorem C01_norm_idempotent : forall m, uvl_norm (uvl_norm m) = uvl_norm m.
 Proof. exact uvl_norm_idempotent. Qed.
 Print Assumptions C01_norm_idempotent.
+
+(* non-vacuity: two models of the fragment (typed features, feature cardinalities, nested attributes,
+   quoted names, every relation kind, REQUIRES / EXCLUDES / arithmetic / aggregate constraints) *)
+Example C01_nonvacuous : uvl_ok ex_model = true /\ uvl_ok ex_model2 = true
+  /\ exists d, cst_of_fm ex_model = Ok d /\ uvl_read_cst d = Ok (annotate_fm (uvl_norm ex_model)).
+Proof. exact (conj ex_model_ok (conj ex_model2_ok ex_model_roundtrip)). Qed.
+Print Assumptions C01_nonvacuous.
